@@ -391,6 +391,14 @@ impl KeyExchangeClient {
 
         let response = KeyExchangeResponse::parse(&mut io).await?;
 
+        // The server must pick from what we offered (RFC 8915 sections 4.1.2 and 4.1.5),
+        // never adopt parameters we did not ask for.
+        if !self.protocols.contains(&response.protocol)
+            || !self.algorithms.contains(&response.algorithm)
+        {
+            return Err(NtsError::Invalid);
+        }
+
         let keys = NtsKeys::extract_from_connection(
             io.get_ref().1,
             response.protocol,
